@@ -11,7 +11,8 @@ from runner import PropertyCheck, Broken, Violation
 class Check(PropertyCheck):
     pid = "C02"
     props_module = "Properties.Properties_C02"
-    extra_targets = ["Extract/ExtractEnc.vo", "Extract/ExtractDec.vo"]
+    extra_targets = ["Extract/ExtractEnc.vo", "Extract/ExtractDec.vo", "Extract/ExtractGen.vo", "Extract/ExtractPm.vo"]
+    extra_props = ["Properties.Properties_C02gen"]
     gen_files = enclib.ENC_GEN
     trusted_base = enclib.ENC_TRUSTED
     assumptions = ["libbz2 (python bz2) stands for 'the reference bzip2 library'"]
@@ -23,7 +24,7 @@ class Check(PropertyCheck):
         for a in list(range(1, 257, 3 if quick else 1)):
             cases.append((400, bytes(range(a))))
         self.cases = cases
-        self.hres, self.mres, stats = enclib.encoder_correspondence(self, cases)
+        self.hres, self.mres, stats = enclib.encoder_correspondence(self, cases, gen_vectors=True)
         self.witness_violations = []
         for (m, d), (st, kv, raw), mk in zip(cases, self.hres, self.mres):
             if st == "OK" and mk is not None and mk.get("ok") == "false":
